@@ -1,3 +1,6 @@
 import GradysProofs.Properties.C01
 import GradysProofs.Properties.C02
 import GradysProofs.Properties.C03
+import GradysProofs.Properties.C09
+import GradysProofs.Properties.C10
+import GradysProofs.Properties.C11
